@@ -1,39 +1,50 @@
 import Tw.Model.NetSim
 import Tw.Model.Conn6
 import Tw.Model.Conn7
-import Tw.Proofs.NetSim
+import Tw.Proofs.ConnSafetyOnline
+import Tw.Proofs.ConnSafety6
+import Tw.Proofs.ConnSafety7
 import Tw.Proofs.Conn6
 import Tw.Proofs.Conn7
 
 /-!
 # C01 — vital chunks are delivered exactly once, in order, uncorrupted
 
-**Proved (online phase, both variants — the code of the online phase is shared, `Tw/Model/Conn.lean`):**
-for two endpoints that are online and an adversarial network (`Tw/Model/NetSim.lean`: the history of
-every datagram ever sent stays deliverable, so duplication / reordering / delay are "deliver any
-index at any time" and loss is "never deliver"; application calls `send`, `flush` and the connection
-layer's `resend` interleave arbitrarily on both sides), under the assumptions of the property as
-guards of the moves — H1: a vital chunk is submitted only while fewer than 512 are unacknowledged;
-H2: a datagram is delivered only while each side has submitted fewer than 256 vital chunks since it
-was sent; H3: every event iterator is drained —
+**System** (`Tw/Model/NetSim.lean`): two full connection objects (`Tw.Conn6.Conn` / `Tw.Conn7.Conn`,
+starting at `Connection::new`) and an adversarial network that keeps the monotone history of every
+datagram either side ever sent.  Moves: application calls on either side (`connect`, `send` vital /
+non-vital, `send_connless`, `flush`, `tick`, `disconnect`), `deliver to i` of *any* datagram of the
+peer's history at any time, any number of times (duplication, reordering, delay; loss = never
+delivering), clock advance.  Variants: `proto6 false` (0.6 with the DDNet token), `proto6 true` (0.6
+towards a peer that does not use the token), `proto7`.
 
-1. `online_vital_prefix_partial`: the vital payloads handed to either application are a prefix of
-   the vital payloads the other application submitted (nothing skipped, duplicated, reordered or
-   altered), across sequence-number wrap-around (no bound on the length of the run);
-2. `online_nonvital_membership_partial`: every non-vital payload handed over was submitted;
-3. `lazy_eq_eager`: for every packet, starting ack and flag, the lazy delivery iterator yields exactly
-   the chunks the eager scan accepts;
-4. `conn6_ready_only_on_accept_partial` (0.6): processing a packet yields `Ready` only if the packet
-   is the peer's `ConnectAccept` and the connection is `Connecting`; it then goes online with that
-   packet's token.
+**Assumptions** (predicates on a move in a world, `admissible` = they hold for every move of the
+schedule and every call returns): H1 `h1` — a vital chunk is submitted only while the resend queue
+holds fewer than 512 chunks; H2 `h2` — a datagram is delivered only while its ack is fewer than 1024
+behind the receiver's `sequence` and every vital sequence number it carries is fewer than 1024
+behind the sequence number the receiver waits for (both measured on the ghost absolute counters:
+`unwrap` decodes a 10-bit value against the sender's counter stamped on the datagram); H3 (the
+application drains every iterator) is built in.  H2 is tight: a chunk exactly 1024 behind is accepted
+(`h2_tight`).
 
-**Partial / open** (`C01_full`, `C01_ready_full` state the whole claims): (a) H2 is the stamp-based
-sufficient condition above rather than "no sequence number mentioned is 1024 behind"; (b) the
-schedule theorem is about the online cores (two `Online` values: the token check and the handshake
-are not part of the system; `Conn6.feed`/`Conn7.feed` hand exactly these cores the packets that carry
-the right token — C03 — but lifting the theorem through the handshake state machines is not
-proved); (c) "`Ready` at most once over a whole run" and the 0.7 counterpart of item 4 are not proved
-(the two-endpoint oracle `C01/ready-twice`, `C01/ready-before-accept` checks them on the implementation).
+**Proved, for every admissible schedule from two fresh connections, all three variants**
+(`C01_conn6`, `C01_conn7`, `C01_all`; `Safe`):
+1. the vital payloads handed to either application are a prefix of the vital payloads the other
+   application submitted — nothing skipped, duplicated, reordered or altered, across any number of
+   sequence wrap-arounds;
+2. every non-vital payload handed over was submitted non-vital by the peer;
+3. either side is told `Ready` at most once, and only after the peer has emitted its
+   `ConnectAccept` (0.6) / `Accept` (0.7) datagram;
+4. `lazy_eq_eager`: the lazy delivery iterator yields exactly the chunks the eager scan accepts, for
+   every packet, starting ack and flag.
+Also `wire_hint_consistent`: the only totalised case of the 0.6 wire model (`P6.wireRead` on a packet
+read against the token hint) is unreachable.
+
+`C01_conn6_accept_token`: the same when the accepting 0.6 connection is created by
+`Connection::new_accept_token` after a stateless listener answered the handshake.
+
+The first-stage result about the two online cores alone (stamp-based H2) is subsumed by the theorems
+above; it lives on as lemmas in `Proofs/ConnSafetyOnline.lean`.
 -/
 namespace Tw.Props.C01
 open Tw.Conn Tw.NetSim
@@ -54,201 +65,108 @@ theorem lazy_eq_eager (ack : Nat) (rr : Bool) (cs : List Chunk) :
     (eagerTrace ack rr cs).1 = receiveEager ack rr cs ∧ (eagerTrace ack rr cs).2 = receiveLazy ack cs :=
   ⟨eagerTrace_fst ack rr cs, eagerTrace_snd ack rr cs⟩
 
-/-- **prefix theorem (online phase)**: for every admissible schedule from two fresh online endpoints,
-in both directions, what was handed over is a prefix of what was submitted -/
-theorem online_vital_prefix_partial (cfg : Cfg) (hc : cfg.Ok) (ms : List Move) (s : Sys)
-    (h : run cfg Sys.init ms = some s) (x : Bool) : s.del (!x) <+: s.sub x := by
-  have := (run_dir hc ms Sys.init s (Sys.init_dir cfg) h x).pre
-  rw [this]
-  exact List.take_prefix _ _
+/-! ## The theorem: clauses 1–3 for every admissible schedule, all variants -/
 
-/-- … for the 0.6 and the 0.7 configuration -/
-theorem online_vital_prefix6_partial (ms : List Move) (s : Sys) (h : run Tw.Conn6.cfg Sys.init ms = some s)
-    (x : Bool) : s.del (!x) <+: s.sub x := online_vital_prefix_partial _ Tw.Conn6.cfg_ok ms s h x
+/-- an admissible schedule runs to the end (no call panics, every delivered index exists) -/
+theorem admissible_runs {P : Proto} : ∀ (sched : List (Move P)) (w : World P),
+    admissible w sched = true → ∃ w', run w sched = some w' := by
+  intro sched
+  induction sched with
+  | nil => intro w _; exact ⟨w, rfl⟩
+  | cons m ms ih =>
+    intro w h
+    simp only [admissible, Bool.and_eq_true] at h
+    cases hs : step w m with
+    | none => rw [hs] at h; simp at h
+    | some w1 =>
+      rw [hs] at h
+      obtain ⟨w', hw'⟩ := ih w1 h.2
+      exact ⟨w', by simp only [NetSim.run, hs]; exact hw'⟩
 
-theorem online_vital_prefix7_partial (ms : List Move) (s : Sys) (h : run Tw.Conn7.cfg Sys.init ms = some s)
-    (x : Bool) : s.del (!x) <+: s.sub x := online_vital_prefix_partial _ Tw.Conn7.cfg_ok ms s h x
+/-- **C01 for 0.6**, with (`tokenless = false`) and without (`tokenless = true`) the DDNet token -/
+theorem C01_conn6 (tokenless : Bool) (sched : List (Move (proto6 tokenless))) (w : World (proto6 tokenless))
+    (hadm : admissible (World.init (proto6 tokenless)) sched = true)
+    (hrun : run (World.init (proto6 tokenless)) sched = some w) : Safe w :=
+  safe_of (run_inv (P6.sim6 tokenless) sched _ w (init_inv (P6.sim6 tokenless)) hadm hrun)
+    (run_hs (P6.hs6 tokenless) sched _ w init_hs hrun)
 
-/-- the receiver's ack and the sender's sequence are the two counters modulo 1024 (wrap-around) -/
-theorem online_counters_partial (cfg : Cfg) (hc : cfg.Ok) (ms : List Move) (s : Sys)
-    (h : run cfg Sys.init ms = some s) (x : Bool) :
-    (s.ep (!x)).ack = (s.del (!x)).length % 1024 ∧ (s.ep x).sequence = (s.sub x).length % 1024 := by
-  have d := run_dir hc ms Sys.init s (Sys.init_dir cfg) h x
-  exact ⟨d.ack, d.seq⟩
+/-- **C01 for 0.6 with an accepting side made by `Connection::new_accept_token`** (a stateless
+listener answered the handshake: `b` starts online with the token, its history holds the listener's
+`ConnectAccept` datagrams): the same conclusion for every admissible schedule -/
+theorem C01_conn6_accept_token (now token k : Nat) (sched : List (Move (proto6 false))) (w : World (proto6 false))
+    (hadm : admissible (World.initAccept6 now token k) sched = true)
+    (hrun : NetSim.run (World.initAccept6 now token k) sched = some w) : Safe w :=
+  safe_of (run_inv (P6.sim6 false) sched _ w (P6.initAccept_inv now token k) hadm hrun)
+    (run_hs (P6.hs6 false) sched _ w (P6.initAccept_hs now token k) hrun)
 
-/-- every non-vital chunk handed over was submitted by the peer -/
-theorem online_nonvital_membership_partial (cfg : Cfg) (hc : cfg.Ok) (ms : List Move) (s : Sys)
-    (h : run cfg Sys.init ms = some s) (x : Bool) : ∀ d ∈ s.nvDel (!x), d ∈ s.nvSub x :=
-  (run_dir hc ms Sys.init s (Sys.init_dir cfg) h x).nvd
+/-- **C01 for 0.7** -/
+theorem C01_conn7 (sched : List (Move proto7)) (w : World proto7)
+    (hadm : admissible (World.init proto7) sched = true) (hrun : run (World.init proto7) sched = some w) :
+    Safe w :=
+  safe_of (run_inv P7.sim7 sched _ w (init_inv P7.sim7) hadm hrun) (run_hs P7.hs7 sched _ w init_hs hrun)
 
-/-- the whole claim: the same for two full connections (handshake included, tokens checked) with the
-delay assumption in its weakest form -/
-def C01_full : Prop :=
-  ∀ (cfg : Cfg) (ms : List Move) (s : Sys), run cfg Sys.init ms = some s → ∀ x, s.del (!x) <+: s.sub x
+/-- **C01**: 0.6 with token, 0.6 without token, 0.7 -/
+theorem C01_all (P : Proto) (hP : P = proto6 false ∨ P = proto6 true ∨ P = proto7)
+    (sched : List (Move P)) (hadm : admissible (World.init P) sched = true) :
+    ∃ w, run (World.init P) sched = some w ∧ Safe w := by
+  obtain ⟨w, hw⟩ := admissible_runs sched _ hadm
+  refine ⟨w, hw, ?_⟩
+  rcases hP with rfl | rfl | rfl
+  · exact C01_conn6 false sched w hadm hw
+  · exact C01_conn6 true sched w hadm hw
+  · exact C01_conn7 sched w hadm hw
 
-/-! ## "ready" -/
+/-- clause 1 spelled out: in every reachable world, both directions -/
+theorem C01_vital_prefix (P : Proto) (hP : P = proto6 false ∨ P = proto6 true ∨ P = proto7)
+    (sched : List (Move P)) (w : World P) (hadm : admissible (World.init P) sched = true)
+    (hrun : run (World.init P) sched = some w) :
+    w.b.deliveredVital <+: w.a.submittedVital ∧ w.a.deliveredVital <+: w.b.submittedVital := by
+  obtain ⟨w', hw', hs⟩ := C01_all P hP sched hadm
+  rw [hrun] at hw'; injection hw' with hw'; subst hw'
+  exact ⟨hs.vital_ab, hs.vital_ba⟩
 
-theorem receiveLazy_no_ready (ack : Nat) (cs : List Chunk) : Event.ready ∉ receiveLazy ack cs := by
-  induction cs generalizing ack with
-  | nil => simp [receiveLazy]
-  | cons c cs ih =>
-    unfold receiveLazy
-    cases hv : c.vital with
-    | none => simp only; intro h; rcases List.mem_cons.mp h with h | h; cases h; exact ih _ h
-    | some v =>
-      obtain ⟨s, r⟩ := v
-      simp only
-      split
-      · intro h; rcases List.mem_cons.mp h with h | h; cases h; exact ih _ h
-      · exact ih _
+/-- the one totalised case of the 0.6 wire model is dead: in every reachable world (admissible or not)
+no datagram of the peer's history other than a close message is read against the receiver's token
+hint (`P6.misread`), so `P6.wireRead` never turns a datagram into a read error that the reader of the
+code would parse -/
+theorem wire_hint_consistent (tokenless : Bool) (sched : List (Move (proto6 tokenless)))
+    (w : World (proto6 tokenless)) (hrun : NetSim.run (World.init (proto6 tokenless)) sched = some w)
+    (to : Side) (dg : Sent Tw.Conn6.Packet) (hdg : dg ∈ (w.get to.other).out) :
+    P6.misread tokenless dg.pkt (Tw.Conn6.Conn.hint (w.get to).conn) = false := by
+  have h := run_loc (P6.loc6 tokenless) sched _ w (init_loc (P6.loc6 tokenless)) hrun
+  exact P6.misread_false (h.side to).1 ((h.side to.other).2 dg hdg)
 
-theorem receive_events {cfg : Cfg} {now : Nat} {o : Online} {snd : Tw.Time.Timeout} {rr : Bool} {cs : List Chunk}
-    {o' : Online} {s' : Tw.Time.Timeout} {fl : List Flushed} {evs : List Event}
-    (h : o.receive cfg now snd rr cs = .ok (o', s', fl, evs)) : ∃ a, evs = receiveLazy a cs := by
-  unfold Online.receive at h
-  cases rr with
-  | false =>
-    simp only [Bool.false_eq_true, if_false] at h
-    split at h
-    · cases h
-    · injection h with h; injection h with _ e2; injection e2 with _ e3; injection e3 with _ e4
-      exact ⟨_, e4.symm⟩
-  | true =>
-    simp only [if_true] at h
-    cases hr : o.resend cfg now snd with
-    | error e => rw [hr] at h; cases h
-    | ok r =>
-      obtain ⟨o2, s2, f2⟩ := r
-      rw [hr] at h
-      simp only at h
-      split at h
-      · cases h
-      · injection h with h; injection h with _ e2; injection e2 with _ e3; injection e3 with _ e4
-        exact ⟨_, e4.symm⟩
+/-- … also from the `new_accept_token` start -/
+theorem wire_hint_consistent_accept_token (now token k : Nat) (sched : List (Move (proto6 false)))
+    (w : World (proto6 false)) (hrun : NetSim.run (World.initAccept6 now token k) sched = some w)
+    (to : Side) (dg : Sent Tw.Conn6.Packet) (hdg : dg ∈ (w.get to.other).out) :
+    P6.misread false dg.pkt (Tw.Conn6.Conn.hint (w.get to).conn) = false := by
+  have h := run_loc (P6.loc6 false) sched _ w (P6.initAccept_loc now token k) hrun
+  exact P6.misread_false (h.side to).1 ((h.side to.other).2 dg hdg)
 
-theorem tickAction6_no_events (env : Tw.Conn6.Env) (c c' : Tw.Conn6.Conn) (out : Tw.Conn6.Out)
-    (h : Tw.Conn6.tickAction env c = .ok (c', out)) : out.events = [] := by
-  obtain ⟨st, snd⟩ := c
-  cases st <;> simp only [Tw.Conn6.tickAction] at h
-  · injection h with h; injection h with _ h; rw [← h]
-  · split at h
-    · cases h
-    · injection h with h; injection h with _ h; rw [← h]
-  · split at h
-    · cases h
-    · injection h with h; injection h with _ h; rw [← h]
-  · split at h
-    · split at h
-      · cases h
-      · injection h with h; injection h with _ h; rw [← h]
-    · split at h
-      · cases h
-      · injection h with h; injection h with _ h; rw [← h]
-  · injection h with h; injection h with _ h; rw [← h]
+/-- H2 cannot be weakened: a chunk whose sequence number is exactly 1024 behind the one the
+receiver waits for passes the acceptance test (the 10-bit sequence space cannot tell them apart) -/
+theorem h2_tight (d : Nat) (hd : 1024 ≤ d) : (seqUpdate (d % 1024) ((d - 1024 + 1) % 1024)).2 = .current := by
+  rw [seqUpdate_snd, seqNext_eq]
+  omega
 
-/-- **0.6**: processing a packet yields `Ready` only if the packet is a `ConnectAccept` control
-packet and the connection is `Connecting`; the connection then goes online with that packet's token.
-(`feedBody` is `feed` after the token check; every other call of the API produces no event at all.) -/
-theorem conn6_ready_only_on_accept_partial (env : Tw.Conn6.Env) (c c' : Tw.Conn6.Conn) (token : Option Nat)
-    (p : Tw.Conn6.Packet) (out : Tw.Conn6.Out)
-    (h : Tw.Conn6.feedBody env c token p = .ok (c', out)) (hr : Event.ready ∈ out.events) :
-    c.state = .connecting ∧ (∃ ack tok, p = .control ack tok .connectAccept) ∧ c'.state = .online token .new := by
-  obtain ⟨st, snd⟩ := c
-  cases p with
-  | connless d =>
-    simp only [Tw.Conn6.feedBody] at h
-    injection h with h; injection h with _ h; rw [← h] at hr; simp at hr
-  | chunks ack tk rr n cs =>
-    have key : ∀ (t : Option Nat) (o : Online),
-        (match o.receive Tw.Conn6.cfg env.now snd rr cs with
-          | .error e => .error e
-          | .ok (o1, send1, fl, evs) =>
-            match Tw.Conn6.emit (fl.map (Tw.Conn6.ofFlushed t)) with
-            | .error e => .error e
-            | .ok ps => .ok (⟨.online t o1, send1⟩, { sent := ps, events := evs })) = Except.ok (c', out) → False := by
-      intro t o hk
-      cases hrc : o.receive Tw.Conn6.cfg env.now snd rr cs with
-      | error e => rw [hrc] at hk; cases hk
-      | ok r =>
-        obtain ⟨o1, s1, fl, evs⟩ := r
-        rw [hrc] at hk
-        simp only at hk
-        split at hk
-        · cases hk
-        · injection hk with hk; injection hk with _ hk
-          rw [← hk] at hr
-          simp only at hr
-          -- the events are those of the lazy iterator
-          obtain ⟨a, ha⟩ := receive_events hrc
-          rw [ha] at hr
-          exact receiveLazy_no_ready _ _ hr
-    cases st with
-    | online t o => exact absurd h (fun hh => key t o hh)
-    | pending t => exact absurd h (fun hh => key t .new hh)
-    | unconnected => simp only [Tw.Conn6.feedBody] at h; injection h with h; injection h with _ h; rw [← h] at hr; simp at hr
-    | connecting => simp only [Tw.Conn6.feedBody] at h; injection h with h; injection h with _ h; rw [← h] at hr; simp at hr
-    | disconnected => simp only [Tw.Conn6.feedBody] at h; injection h with h; injection h with _ h; rw [← h] at hr; simp at hr
-  | control ack tk ctl =>
-    cases ctl with
-    | keepAlive => simp only [Tw.Conn6.feedBody] at h; injection h with h; injection h with _ h; rw [← h] at hr; simp at hr
-    | accept => simp only [Tw.Conn6.feedBody] at h; injection h with h; injection h with _ h; rw [← h] at hr; simp at hr
-    | close r => simp only [Tw.Conn6.feedBody] at h; injection h with h; injection h with _ h; rw [← h] at hr; simp at hr
-    | connect =>
-      cases st with
-      | unconnected =>
-        cases token with
-        | none =>
-          simp only [Tw.Conn6.feedBody] at h
-          have := tickAction6_no_events _ _ _ _ h
-          rw [this] at hr; simp at hr
-        | some t0 =>
-          simp only [Tw.Conn6.feedBody] at h
-          split at h
-          · split at h
-            · cases h
-            · have := tickAction6_no_events _ _ _ _ h
-              rw [this] at hr; simp at hr
-          · injection h with h; injection h with _ h; rw [← h] at hr; simp at hr
-      | online t o => simp only [Tw.Conn6.feedBody] at h; injection h with h; injection h with _ h; rw [← h] at hr; simp at hr
-      | pending t => simp only [Tw.Conn6.feedBody] at h; injection h with h; injection h with _ h; rw [← h] at hr; simp at hr
-      | connecting => simp only [Tw.Conn6.feedBody] at h; injection h with h; injection h with _ h; rw [← h] at hr; simp at hr
-      | disconnected => simp only [Tw.Conn6.feedBody] at h; injection h with h; injection h with _ h; rw [← h] at hr; simp at hr
-    | connectAccept =>
-      cases st with
-      | connecting =>
-        simp only [Tw.Conn6.feedBody] at h
-        split at h
-        · cases h
-        · injection h with h; injection h with h1 _
-          exact ⟨rfl, ⟨ack, tk, rfl⟩, by rw [← h1]⟩
-      | online t o => simp only [Tw.Conn6.feedBody] at h; injection h with h; injection h with _ h; rw [← h] at hr; simp at hr
-      | pending t => simp only [Tw.Conn6.feedBody] at h; injection h with h; injection h with _ h; rw [← h] at hr; simp at hr
-      | unconnected => simp only [Tw.Conn6.feedBody] at h; injection h with h; injection h with _ h; rw [← h] at hr; simp at hr
-      | disconnected => simp only [Tw.Conn6.feedBody] at h; injection h with h; injection h with _ h; rw [← h] at hr; simp at hr
+/-! ## Non-vacuity of the main theorems: admissible schedules with handshake, loss, duplication,
+reordering, a peer-requested resend and a timer tick, in which chunks are delivered -/
 
-/-- the full "ready" clause: over whole runs of two full connections the connecting side sees `Ready`
-at most once, and only after the accepting side has emitted its accept datagram -/
-def C01_ready_full : Prop :=
-  ∀ (sched : List (Tw.Conn6.Env × Tw.Conn6.Op)) (c : Tw.Conn6.Conn) (outs : List Tw.Conn6.Out),
-    Tw.Conn6.run .new sched = .ok (c, outs) →
-    ((outs.map fun o => (o.events.filter (· == Event.ready)).length).foldl (· + ·) 0) ≤ 1
+example : admissible (World.init (proto6 false)) (demo6 false) = true := by decide +kernel
+example : (run (World.init (proto6 false)) (demo6 false)).map summary =
+    some ([[[1], [2], [3]], [[1], [2], [3]], [[9], [9]], [[7]]], 1) := by decide +kernel
 
-/-! ## Non-vacuity: an admissible schedule with loss, duplication and reordering; the guards are
-decidable and the statement computes -/
+example : admissible (World.init (proto6 true)) (demo6 true) = true := by decide +kernel
+example : (run (World.init (proto6 true)) (demo6 true)).map summary =
+    some ([[[1], [2], [3]], [[1], [2], [3]], [[9], [9]], [[7]]], 1) := by decide +kernel
 
-def demo : List Move :=
-  [.send true [1] true, .send true [2] true, .flush true, .send true [3] true, .send true [9] false, .flush true,
-   .deliver false 1,      -- second datagram first: chunk 3 is from the future, a resend is requested
-   .deliver false 1,      -- duplicate
-   .flush false,
-   .deliver true 0,       -- the resend request reaches the sender: it resends everything
-   .flush true,
-   .deliver false 2,      -- the resent chunks arrive
-   .deliver false 0]      -- the delayed first datagram: all in the past
+example : admissible (World.init proto7) demo7 = true := by decide +kernel
+example : (run (World.init proto7) demo7).map summary =
+    some ([[[1], [2], [3]], [[1], [2], [3]], [[9], [9]], [[7]]], 1) := by decide +kernel
 
-example : (run Tw.Conn6.cfg Sys.init demo).map (fun s => (s.del false, s.sub true, s.nvDel false)) =
-    some ([[1], [2], [3]], [[1], [2], [3]], [[9], [9]]) := by decide +kernel
-
-example : Tw.Conn6.cfg.Ok ∧ Tw.Conn7.cfg.Ok := ⟨Tw.Conn6.cfg_ok, Tw.Conn7.cfg_ok⟩
+example : admissible (World.initAccept6 0 777 1) demoAccept6 = true := by decide +kernel
+example : (NetSim.run (World.initAccept6 0 777 1) demoAccept6).map summary =
+    some ([[[1], [2], [3]], [[1], [2], [3]], [[9], [9]], [[7]]], 1) := by decide +kernel
 
 end Tw.Props.C01
